@@ -186,6 +186,15 @@ def run(lines, out, args):
             fn.colour = "red"
             fn.answer = 42
             fn.nothing = None
+            # attribute names of every shape a function's __dict__ can hold (seeded change o18a skipped the dunder-shaped ones as
+            # "interpreter bookkeeping"): security declarations, private-looking names, a key that
+            # is not an identifier, falsy values
+            fn.__permission__ = "zope.View"
+            fn.__roles__ = ("Manager",)          # (not __wrapped__: the inspect.signature oracle would follow it)
+            fn._private_ = 0
+            fn.__half = ""
+            fn.__dict__["two words"] = ()
+            want_tags = sorted(vars(fn).items(), key=lambda kv: kv[0])
             if kind in "MS":
                 C = type("C", (), {"f": fn})
                 target = C().f
@@ -241,7 +250,7 @@ def run(lines, out, args):
                 tags2 = sorted((k, m.queryTaggedValue(k, "absent")) for k in ("answer", "colour", "nothing"))
             except Exception as e:  # noqa
                 tags = tags2 = "raised %s" % type(e).__name__
-            if tags != [("answer", 42), ("colour", "red"), ("nothing", None)] or tags2 != tags:
+            if tags != want_tags or tags2 != [("answer", 42), ("colour", "red"), ("nothing", None)] or len(want_tags) != 8:
                 got += " TAGS-WRONG:%r" % (tags,)
             # the other places the rendered signature is observed at: str() / repr() of the description and the
             # interface's documentation
